@@ -131,6 +131,8 @@ inductive Act
   | handle (i : Nat)
   | close (thread : Nat)
   | resume (i : Nat)
+  /-- mode-2 push (supervisor event about fiber `f`, thread-start error, C API give) -/
+  | giveNB (fiber : Nat) (x : Item)
   deriving DecidableEq, Repr
 
 /-- remove the `i`-th element -/
@@ -156,6 +158,19 @@ def give (s : St) (t f : Nat) (x : Item) : St :=
                  log := s.log ++ [.gave f x], waiting := setb s.waiting f true, home := setn s.home f t }
       else
         { s with items := s.items ++ [x], sent := s.sent ++ [x], log := s.log ++ [.gave f x] }
+
+/-- janet_channel_push_with_lock, threaded channel, mode 2: a supervisor event pushed by janet_loop1 when a task of fiber `f`
+    ends / signals (`janet_channel_push(chan, make_supervisor_event(..), 2)`), the thread-start error report of
+    janet_go_thread_subr, the C API janet_channel_give.  Never parks: over capacity the item stays queued and the call
+    returns 1 without registering a pending writer. -/
+def giveNB (s : St) (f : Nat) (x : Item) : St :=
+  if s.closed then s
+  else
+    match s.readers with
+    | r :: rs =>
+      { s with readers := rs, flight := s.flight ++ [⟨r.thread, r.fiber, r.sched, .read x⟩],
+               sent := s.sent ++ [x], handed := s.handed ++ [(r.fiber, x)], log := s.log ++ [.gave f x] }
+    | [] => { s with items := s.items ++ [x], sent := s.sent ++ [x], log := s.log ++ [.gave f x] }
 
 /-- janet_channel_pop_with_lock, threaded channel (ev/take) + cfun_channel_pop: an item obtained directly is scheduled to the
     calling fiber itself (`janet_schedule(janet_vm.root_fiber, item)`), then the fiber awaits in every case -/
@@ -272,6 +287,7 @@ def step (cfg : Cfg) (s : St) : Act → St
   | .handle i => handle cfg s i
   | .close t => close s t
   | .resume i => resume cfg s i
+  | .giveNB f x => giveNB s f x
 
 def run (cfg : Cfg) (acts : List Act) (s : St) : St := acts.foldl (step cfg) s
 
